@@ -2,7 +2,7 @@
 # runs the quick check of every property in props.json on /repo as it is (clean tree expected), 3 at a time;
 # evidence goes to /verif/evidence, summaries to /tmp/runall.log
 cd /verif
-props=$(python3 -c "import json;print(' '.join(json.load(open('props.json')).keys()))")
+props=$(python3 -c "import json;print(' '.join(k for k in json.load(open('props.json')).keys() if not k.startswith('_')))")
 : > /tmp/runall.log
 echo $props | tr ' ' '\n' | xargs -P 3 -I{} sh -c 'bin/vcheck -p {} 2>&1 | grep -E "VIOLATION|KNOWN|^C[0-9]+:" | cut -c1-240 >> /tmp/runall.log'
 sort /tmp/runall.log
